@@ -51,6 +51,9 @@ pub enum Op {
   GroupByParityDeferred,
   WindowFlat(usize),
   GroupByParityFlat,
+  /// `group_by(parity).flat_map(|g| g.on_error_resume_next(|_| just(9)))`: a recovery operator inside the
+  /// per-group pipeline - every group open when the source fails contributes its fallback before the error
+  GroupByParityFlatResume,
   // ---- recovery
   Retry(usize),
   RetryWhen(EPred),
@@ -119,7 +122,7 @@ impl Op {
       Op::Materialize => "materialize",
       Op::MatDemat | Op::DematInBand(..) => "dematerialize",
       Op::Window(_) | Op::WindowFlat(_) | Op::WindowDeferred(_) => "window_with_count",
-      Op::GroupByParity | Op::GroupByParityFlat | Op::GroupByParityDeferred => "group_by",
+      Op::GroupByParity | Op::GroupByParityFlat | Op::GroupByParityFlatResume | Op::GroupByParityDeferred => "group_by",
       Op::Retry(_) => "retry",
       Op::RetryWhen(_) => "retry_when",
       Op::OnErrorResumeNext(_) => "on_error_resume_next",
@@ -491,6 +494,24 @@ pub fn build_typed(n: &Node, env: &Env) -> Built {
         })
         .flat_map(|w| w),
     ),
+    Op::GroupByParityFlatResume => {
+      let t2 = t.clone();
+      Built::V(
+        src
+          .group_by(move |x: V| {
+            let _ = &t;
+            crate::s_val::user_fn_point();
+            x.d.i().rem_euclid(2)
+          })
+          .flat_map(move |g| {
+            let t3 = t2.clone();
+            g.on_error_resume_next(move |_e| {
+              let _ = &t3;
+              observables::just(V::int(9))
+            })
+          }),
+      )
+    }
     Op::Retry(k) => Built::V(src.retry(*k)),
     Op::RetryWhen(p) => {
       let p = *p;
